@@ -315,6 +315,44 @@ _sodium_runtime_intel_cpu_features(CPUFeatures * const cpu_features)
     return 0;
 }
 
+#ifdef SODIUM_VERIF
+/*
+ * Verification hook (off unless built with -DSODIUM_VERIF): a mask that can
+ * only *clear* detected CPU features, so that every backend can be exercised
+ * on a single host. Set it before sodium_init().
+ */
+# define SODIUM_VERIF_NO_SSE2    0x001U
+# define SODIUM_VERIF_NO_SSE3    0x002U
+# define SODIUM_VERIF_NO_SSSE3   0x004U
+# define SODIUM_VERIF_NO_SSE41   0x008U
+# define SODIUM_VERIF_NO_AVX     0x010U
+# define SODIUM_VERIF_NO_AVX2    0x020U
+# define SODIUM_VERIF_NO_AVX512F 0x040U
+# define SODIUM_VERIF_NO_PCLMUL  0x080U
+# define SODIUM_VERIF_NO_AESNI   0x100U
+# define SODIUM_VERIF_NO_RDRAND  0x200U
+
+SODIUM_EXPORT unsigned int _sodium_verif_cpu_disable_mask;
+unsigned int _sodium_verif_cpu_disable_mask = 0U;
+
+static void
+_sodium_verif_apply_cpu_disable_mask(CPUFeatures * const cpu_features)
+{
+    const unsigned int mask = _sodium_verif_cpu_disable_mask;
+
+    if (mask & SODIUM_VERIF_NO_SSE2)    cpu_features->has_sse2 = 0;
+    if (mask & SODIUM_VERIF_NO_SSE3)    cpu_features->has_sse3 = 0;
+    if (mask & SODIUM_VERIF_NO_SSSE3)   cpu_features->has_ssse3 = 0;
+    if (mask & SODIUM_VERIF_NO_SSE41)   cpu_features->has_sse41 = 0;
+    if (mask & SODIUM_VERIF_NO_AVX)     cpu_features->has_avx = 0;
+    if (mask & SODIUM_VERIF_NO_AVX2)    cpu_features->has_avx2 = 0;
+    if (mask & SODIUM_VERIF_NO_AVX512F) cpu_features->has_avx512f = 0;
+    if (mask & SODIUM_VERIF_NO_PCLMUL)  cpu_features->has_pclmul = 0;
+    if (mask & SODIUM_VERIF_NO_AESNI)   cpu_features->has_aesni = 0;
+    if (mask & SODIUM_VERIF_NO_RDRAND)  cpu_features->has_rdrand = 0;
+}
+#endif
+
 int
 _sodium_runtime_get_cpu_features(void)
 {
@@ -322,6 +360,9 @@ _sodium_runtime_get_cpu_features(void)
 
     ret &= _sodium_runtime_arm_cpu_features(&_cpu_features);
     ret &= _sodium_runtime_intel_cpu_features(&_cpu_features);
+#ifdef SODIUM_VERIF
+    _sodium_verif_apply_cpu_disable_mask(&_cpu_features);
+#endif
     _cpu_features.initialized = 1;
 
     return ret;
